@@ -1,8 +1,10 @@
 // Package c16 decides C16: lists.Queue is FIFO and lists.Stack is LIFO.
 //
-// Files: c16_test.go (model engine, explicit op-list cases: C16.enum, C16.types, C16.queue, C16.stack),
-// elems_test.go (the element types), phases_test.go (long phase histories: C16.phases.queue, C16.phases.stack,
-// C16.grid, C16.pair).
+// Files: c16_test.go (model engine, explicit op-list cases: C16.enum, C16.types, C16.queue, C16.stack, C16.gc),
+// elems_test.go (the element types, preloaded stacks), phases_test.go (long phase histories: C16.phases.queue,
+// C16.phases.stack, C16.grid, C16.pair), big_test.go (C16.big: sizes 2^11..2^20 under different GOMAXPROCS; C16.pre:
+// stacks converted from slices with values and spare capacity; C16.huge: zero-size elements, lengths up to MaxInt),
+// wrap_test.go (C16.wrap16, C16.wrap32: 2^16..2^32 values through one container).
 package c16
 
 import (
@@ -33,7 +35,8 @@ type Op struct {
 // Case is one history on one fresh container.
 //
 // Kind is "<container>/<element type>", container one of "queue" (zero-value Queue), "stack-nil" (var s Stack),
-// "stack-empty" (Stack{}, non-nil), "stack-cap" (make(Stack,0,4): spare capacity), "stack-cap100"; the element
+// "stack-empty" (Stack{}, non-nil), "stack-cap" (make(Stack,0,4): spare capacity), "stack-cap100",
+// "stack-pre<L>+<S>" (conversion of a slice that holds L values and has S elements of unused capacity); the element
 // types are listed in elems_test.go. The first generation of names is still understood: "queue" (= queue/int),
 // "queue-str" (= queue/string), "stack-nil", "stack-empty", "stack-cap" (int) and "stack-str" (= stack-nil/string).
 //
@@ -131,9 +134,9 @@ func (e *eng[E]) names() (string, string) {
 func (e *eng[E]) show() string {
 	m := e.model
 	if len(m) <= 12 {
-		return fmt.Sprintf("%v", m)
+		return shortAll(m)
 	}
-	return fmt.Sprintf("(%d values) %v ... %v", len(m), m[:6], m[len(m)-6:])
+	return fmt.Sprintf("(%d values) %s ... %s", len(m), shortAll(m[:6]), shortAll(m[len(m)-6:]))
 }
 
 // call renders "Name(arg)" for messages.
@@ -144,7 +147,30 @@ func (e *eng[E]) call(what string, withArg bool) string {
 	if !withArg || len(e.model) == 0 {
 		return what + "()"
 	}
-	return fmt.Sprintf("%s(%v)", what, e.model[len(e.model)-1])
+	return fmt.Sprintf("%s(%s)", what, short(e.model[len(e.model)-1]))
+}
+
+// short prints a value, cut to 100 characters (wide element types).
+func short(v any) string {
+	s := fmt.Sprintf("%v", v)
+	if len(s) > 100 {
+		s = s[:100] + "..."
+	}
+	return s
+}
+
+// shortAll prints a few values.
+func shortAll[E any](vs []E) string {
+	var b strings.Builder
+	b.WriteByte('[')
+	for i, v := range vs {
+		if i > 0 {
+			b.WriteByte(' ')
+		}
+		b.WriteString(short(v))
+	}
+	b.WriteByte(']')
+	return b.String()
 }
 
 // next is what the next removal must return.
@@ -175,8 +201,8 @@ func (e *eng[E]) check(i int, what string, withArg bool) string {
 	for rep := 0; rep < 2; rep++ {
 		gv, gok := e.b.peek()
 		if gok != wok || !e.eq(gv, wv) {
-			return fmt.Sprintf("%s op %d (%s): Peek #%d afterwards = (%v,%v), want (%v,%v) = what the next %s returns (model %s)",
-				e.tag, i, e.call(what, withArg), rep+1, gv, gok, wv, wok, remName, e.show())
+			return fmt.Sprintf("%s op %d (%s): Peek #%d afterwards = (%s,%v), want (%s,%v) = what the next %s returns (model %s)",
+				e.tag, i, e.call(what, withArg), rep+1, short(gv), gok, short(wv), wok, remName, e.show())
 		}
 	}
 	if got := e.b.size(); got != len(e.model) {
@@ -220,7 +246,7 @@ func (e *eng[E]) remove(i int) string {
 	e.calls++
 	e.evals++
 	if gok != wok || !e.eq(gv, wv) {
-		return fmt.Sprintf("%s op %d: %s() = (%v,%v), want (%v,%v); model before the call (oldest first): %s", e.tag, i, remName, gv, gok, wv, wok, e.show())
+		return fmt.Sprintf("%s op %d: %s() = (%s,%v), want (%s,%v); model before the call (oldest first): %s", e.tag, i, remName, short(gv), gok, short(wv), wok, e.show())
 	}
 	if wok {
 		e.removals++
@@ -254,7 +280,7 @@ func (e *eng[E]) peek(i int) string {
 	e.calls++
 	e.evals++
 	if gok != wok || !e.eq(gv, wv) {
-		return fmt.Sprintf("%s op %d: Peek() = (%v,%v), want (%v,%v); model (oldest first): %s", e.tag, i, gv, gok, wv, wok, e.show())
+		return fmt.Sprintf("%s op %d: Peek() = (%s,%v), want (%s,%v); model (oldest first): %s", e.tag, i, short(gv), gok, short(wv), wok, e.show())
 	}
 	if !wok {
 		e.emptyPeek = true
@@ -402,11 +428,13 @@ func Run(c Case) pbt.Outcome {
 }
 
 // genOps builds an op list (<= maxOps) out of bursts: fill, drain-to-empty (plus
-// extra removals on the empty container), partial drain, mixed, observers, and (one case in 150) garbage
-// collections between the calls. The
+// extra removals on the empty container), partial drain, mixed, observers. The
 // generator tracks the size so that "drain" bursts really reach empty. One case in
 // five uses long fills (up to 70 per burst) so that sizes beyond 32 and 64 occur.
-func genOps(t *rapid.T) []Op {
+func genOps(t *rapid.T) []Op { return genOpsGC(t, false) }
+
+// genOpsGC: with gc, garbage collections are one of the burst kinds.
+func genOpsGC(t *rapid.T, gc bool) []Op {
 	var ops []Op
 	size := 0
 	id := 0
@@ -430,7 +458,7 @@ func genOps(t *rapid.T) []Op {
 		}
 	}
 	bursts := []int{0, 0, 0, 1, 1, 1, 2, 3, 3, 4}
-	if rapid.IntRange(0, 149).Draw(t, "gc") == 0 {
+	if gc {
 		bursts = []int{0, 0, 0, 1, 1, 1, 2, 3, 3, 4, 5}
 	}
 	nb := rapid.IntRange(2, 16).Draw(t, "bursts")
@@ -439,6 +467,9 @@ func genOps(t *rapid.T) []Op {
 		case 0: // fill
 			for k := rapid.IntRange(1, maxFill).Draw(t, "fill"); k > 0 && len(ops) < maxOps; k-- {
 				ins()
+			}
+			if gc && rapid.IntRange(0, 3).Draw(t, "gc-after-fill") == 0 {
+				ops = append(ops, Op{K: opGC})
 			}
 		case 1: // drain to empty, then poke the empty container
 			for size > 0 && len(ops) < maxOps {
@@ -490,7 +521,7 @@ var queueKinds = kindsOf("queue")
 var stackKinds = kindsOf("stack-nil", "stack-empty", "stack-cap", "stack-cap100")
 
 const ruleBursts = "op list <= 80 (one case in five: <= 260 with fills up to 70, so that sizes beyond 32 and 64 occur) built from bursts (fill, drain to empty + 0..2 calls on the empty container, " +
-	"partial drain, mixed, observers; one case in 150 also has runtime.GC() + small allocations between the calls), values are unique ids with 5% zero values, one case in eight is quiet; "
+	"partial drain, mixed, observers), values are unique ids with 5% zero values, one case in eight is quiet; "
 
 var specQueue = pbt.Register(&pbt.Spec[Case]{
 	Property: "C16", Name: "C16.queue", Rule: "rapid: Queue of every element type, " + ruleBursts + rule + ruleNT,
@@ -507,6 +538,43 @@ var specStack = pbt.Register(&pbt.Spec[Case]{
 	},
 	Run: Run, Quick: 30000, Thorough: 200000, Replicas: 4, ReplicaEvery: 16,
 })
+
+// Garbage collections in the middle of a history. A forced collection is slow (milliseconds when the machine is
+// busy), so these cases have a unit of their own with a small number of cases instead of being mixed into the others.
+var specGC = pbt.Register(&pbt.Spec[Case]{
+	Property: "C16", Name: "C16.gc", Rule: "rapid: Queue or Stack (nil, empty, capacity 4, capacity 100) of every element type, op lists as in C16.queue/C16.stack but with collections after a fill burst (1 in 4) and as a further burst kind (1 in 11): " +
+		"runtime.GC() followed by 96 small allocations (ints, 4-word arrays, strings), after which the usual observers run; values inserted before a collection must come out unchanged after it " +
+		"(in particular pointers and strings that only the container references); " + ruleBursts + rule + "; non-trivial = at least 10 ops, at least one collection while values are inside, and removals afterwards",
+	Gen: func(t *rapid.T) Case {
+		kinds := queueKinds
+		if rapid.Bool().Draw(t, "stack") {
+			kinds = stackKinds
+		}
+		return Case{Kind: rapid.SampledFrom(kinds).Draw(t, "kind"), Quiet: rapid.IntRange(0, 7).Draw(t, "quiet") == 0, Ops: genOpsGC(t, true)}
+	},
+	Run: func(c Case) pbt.Outcome {
+		out := Run(c)
+		size, gcInside, remAfter := 0, false, false
+		for _, op := range c.Ops {
+			switch ((op.K % nOps) + nOps) % nOps {
+			case opInsert:
+				size++
+			case opRemove:
+				if size > 0 {
+					size--
+					remAfter = remAfter || gcInside
+				}
+			case opGC:
+				gcInside = gcInside || size > 0
+			}
+		}
+		out.NonTrivial = out.Violation == "" && len(c.Ops) >= 10 && gcInside && remAfter
+		return out
+	},
+	Quick: 100, Thorough: 1500, Replicas: 4, ReplicaEvery: 8,
+})
+
+func TestC16Gc(t *testing.T) { pbt.Check(t, specGC) }
 
 // enumSeqs yields every sequence over {Insert, Remove, Peek} of length 0..maxLen for every given kind.
 // Inserted values are 1,2,3,... except that the second insertion is the zero value.
@@ -564,7 +632,7 @@ var specEnum = pbt.Register(&pbt.Spec[Case]{
 			enumSeqs(legacyKinds, []bool{true}, maxLen-1, shard, shards, yield)
 		}
 	},
-	Run: Run, Exhaustive: true, Replicas: 4, ReplicaEvery: 16,
+	Run: Run, Exhaustive: true, Replicas: 4, ReplicaEvery: 256, // very many very short cases: few copies
 })
 
 // The same small scope for every container x element type (shorter sequences).
@@ -592,7 +660,7 @@ var specTypes = pbt.Register(&pbt.Spec[Case]{
 		out.NonTrivial = out.Violation == "" && len(c.Ops) >= 5 && ins >= 2 && rem >= 2
 		return out
 	},
-	Exhaustive: true, Replicas: 4, ReplicaEvery: 16,
+	Exhaustive: true, Replicas: 4, ReplicaEvery: 256,
 })
 
 func TestC16Enum(t *testing.T)  { pbt.Check(t, specEnum) }
